@@ -277,6 +277,8 @@ def translate_fn(self, fi, lean, kind):
         rty = rty_decl
         if t in NUMERIC and rty in NUMERIC and t != rty:
             term, t = ft.convert(term, t, rty)
+    if ctx.uses_kbits:
+        binders.insert(0, '(kbits : Nat)')
     selfb = f'(self : {owner} α) ' if has_self else ''
     sig = f'def {lean} {{α : Type}} [RealLike α] {selfb}{" ".join(binders)} : {ty_str(rty)} :='
     src = f'{fi.file}: {"impl " + fi.trait + ("<" + fi.trait_arg + ">" if fi.trait_arg else "") + " for " if fi.trait else ""}{owner or "fn"}::{fn[1]}' + (f' [{kind}]' if kind else '')
@@ -286,7 +288,7 @@ def translate_fn(self, fi, lean, kind):
             'rparams': [(p[0][1] if p[0] != 'self' else 'self', p[1]) for p in params],
             'rret': fn[3], 'pub': bool(fn[7]) if len(fn) > 7 else (fi.trait is not None or not owner),
             'trait_arg': fi.trait_arg, 'kinds_all': [k.strip() for k in (fi.kinds or generic_kinds(fi) or [])],
-            'generics': generic_names(fi)}
+            'generics': generic_names(fi), 'kbits': ctx.uses_kbits}
 
 
 for _f in (resolve_method, fn_suffix, request, translate_fn):
